@@ -317,7 +317,7 @@ def is_directed(G):
     return G.is_directed()
 
 
-def frozen():
+def frozen(*args, **kwargs):
     """Dummy method for raising errors when trying to modify frozen graphs"""
     raise nx.NetworkXError("Frozen graph can't be modified")
 
@@ -351,6 +351,8 @@ def freeze(G):
     G.remove_edge = frozen
     G.remove_edges_from = frozen
     G.clear = frozen
+    G.clear_edges = frozen
+    G.update = frozen
     G.frozen = True
     return G
 
